@@ -2,6 +2,7 @@
 import json
 
 import common
+import exectrace
 
 
 def sigfn(v, o):
@@ -36,6 +37,10 @@ def check(run, only=None):
             run.mismatch(sigfn(v, o), case, "execution did not terminate normally: " + o["st"],
                          expected="output or error", observed=(o.get("err") or o.get("stderr") or "")[:1200])
     run.traces += len(vecs)
+
+    if only is None:
+        # binding T: seeded random programs over the whole schema, accepted by TLC against the reference executor
+        exectrace.run_exec_trace(run, 30000 if run.tier == "thorough" else 1000, 2)
 
 
 def replay(run, path):
